@@ -6,6 +6,8 @@ import LoraVerif.Lemmas.ExceptLemmas
 import LoraVerif.Lemmas.FcntDown
 import LoraVerif.Lemmas.Ghost
 import LoraVerif.Lemmas.RefineOps
+import LoraVerif.Lemmas.GhostC
+import LoraVerif.Lemmas.RefineC
 /-!
 # C05 — a downlink is accepted iff it is authentic and fresh (replay protection)
 
@@ -591,6 +593,487 @@ def demoAsyncOps : List AsyncOp :=
 example : ∀ op ∈ demoAsyncOps, op.plain { lead := 15, buffer := 40, classC := false, txMs := 57 } = true ∧ op.allView viewOk = true := by
   decide +kernel
 
+/-! ## extended histories: Class C receptions INSIDE the receive procedure (`Model/HistoryC.lean`)
+
+The async front-end of a Class C device hands every frame it hears on the RXC parameters between TX
+and RX1 (`c1`) and between RX1 and RX2 (`c2`) to `handle_rxc` at once.  The reference tracker moves
+at those receptions too (`ghNextC`, `Lemmas/GhostC.lean`): the REFERENCE procedure `refUplink`
+(`Lemmas/CycleC.lean`) judges the frames of `c1`, RX1, `c2`, RX2 one after the other with the rule
+`accepts` (size limit of the window it was heard in — `rxcMp`, the limit of `get_rxc_config`, for the
+RXC frames — and `Spec/Freshness.lean`) under the counter it holds AT THAT POINT, and a frame accepted
+on the way moves the counter for the frames after it. -/
+
+/-- **what every event of an extended history must output**, given the reference tracker before it:
+events of `Model/History.lean` as `OutOk` says; `send` + receive procedure of a device with a session
+reports, delivers and lists (`heard`: one entry per frame handled, in order) EXACTLY what the reference
+procedure computes from the event, the tracker's counter, the uplink's counter and the payload limits
+of the windows; a join procedure is the plain `joinOtaa` it amounts to (`joinPlain`). -/
+def OutOkC (gh : Gh) (e : EvL) (out : OutC) : Prop :=
+  match e.2 with
+  | .base ev => OutOk gh ev out.out ∧ out.heard = []
+  | .uplinkC cc _ _ conf fault c1 rx1 c2 rx2 =>
+    (match gh with
+     | some last => ∃ so, so.frame.confirmed = conf ∧
+         out = { out := .up so (upRefC cc last conf e.1 fault c1 rx1 c2 rx2 so).resp (upRefC cc last conf e.1 fault c1 rx1 c2 rx2 so).dl,
+                 heard := (upRefC cc last conf e.1 fault c1 rx1 c2 rx2 so).heard }
+     | none => out = { out := .notJoined })
+  | .joinC cc fault c1 rx1 c2 rx2 =>
+    OutOk gh (joinPlain fault rx1 rx2) out.out ∧
+      out.heard = (match joinRes (joinFaultC fault rx1) rx1 rx2 with | some _ => [jsOut] | none => [])
+
+theorem stepC_outOkC {σ} (g : Rng σ) (m m' : MacState) (rs rs' : σ) (ev : EvC) (out : OutC) (gh : Gh)
+    (hr : GhRel m gh) (hv : evOkC ev = true) (h : stepC g (m, rs) ev = .ok ((m', rs'), out)) :
+    OutOkC gh (rxcMp m, ev) out := by
+  cases ev with
+  | base e =>
+    obtain ⟨hs, hh⟩ := stepC_base g _ _ e out h
+    exact ⟨step_outOk g m m' rs rs' e out.out gh hr hv hs, hh⟩
+  | joinC cc fault c1 rx1 c2 rx2 =>
+    obtain ⟨hs, hh⟩ := stepC_joinC_plain g _ _ cc fault c1 rx1 c2 rx2 out h
+    exact ⟨step_outOk g m m' rs rs' _ out.out gh hr (evOk_joinPlain hv) hs, hh⟩
+  | uplinkC cc data fport conf fault c1 rx1 c2 rx2 =>
+    cases gh with
+    | none =>
+      obtain ⟨_, _, rfl⟩ := stepC_uplinkC_notJoined g m m' rs rs' hr cc data fport conf fault c1 rx1 c2 rx2 out h
+      rfl
+    | some last =>
+      obtain ⟨s, hst, rfl, hl⟩ := hr
+      obtain ⟨so, m1, _, hfr, _, _, _, hout, _⟩ :=
+        stepC_uplinkC_joined g m m' rs rs' s hst hl cc data fport conf fault c1 rx1 c2 rx2 hv out h
+      exact ⟨so, by rw [hfr]; rfl, hout⟩
+
+/-- the trace predicate of C05 over extended histories -/
+def AcceptTraceC : Gh → List (EvL × OutC) → Prop := TraceDG ghNextC OutOkC
+
+/-- the tracker after an extended trace -/
+def ghAfterC : Gh → List (EvL × OutC) → Gh := ghostAfterG ghNextC
+
+/-- **C05 over every extended history** (Class C receptions inside the receive procedure included).
+From any state the tracker `gh` describes, for every random stream and every extended history whose
+frames carry 16-bit wire counters: at EVERY event, every frame the procedure handles — heard on the
+RXC parameters before RX1, in RX1, on the RXC parameters before RX2, in RX2 — is acted upon (reported
+in `heard`, delivered, remembered: the counter under which all later frames, of this procedure and of
+later events, are judged) iff it fits the limit of the window it was heard in and its MIC verifies
+under the unique fresh counter; and the final state is again the one the tracker describes. -/
+theorem historyC_accept_iff {σ} (g : Rng σ) (m : MacState) (rs : σ) (gh : Gh) (hr : GhRel m gh) (evs : List EvC)
+    (hv : ∀ ev ∈ evs, evOkC ev = true) (ms' : MacState × σ) (outs : List OutC)
+    (h : runC g (m, rs) evs = .ok (ms', outs)) :
+    AcceptTraceC gh ((annotC g (m, rs) evs).zip outs) ∧ GhRel ms'.1 (ghAfterC gh ((annotC g (m, rs) evs).zip outs)) := by
+  have hc := runC_chain g (m, rs) ms' evs outs h
+  have hv' : ∀ x ∈ (annotC g (m, rs) evs).zip outs, evOkC x.1.2 = true := by
+    intro x hx
+    have h1 := (List.of_mem_zip hx).1
+    unfold annotC at h1
+    exact hv _ (List.of_mem_zip h1).2
+  exact chainC_traceD g ghNextC OutOkC GhRel (fun ev => evOkC ev = true)
+    (fun m s ev m' s' out gh hr hv hs => ⟨stepC_outOkC g m m' s s' ev out gh hr hv hs, stepC_ghRel g m m' s s' ev out gh hr hv hs⟩)
+    (m, rs) ms' _ gh hr hv' hc
+
+/-! ### the accepted counters of a session strictly increase, inside a procedure and across events -/
+
+/-- the counter a report names as accepted -/
+def rep (o : RxOut) : Option Nat :=
+  match o.resp with
+  | .downlinkReceived N => some N
+  | _ => none
+
+/-- the downlink counters an extended event reports as accepted, in order -/
+def reportedC (e : EvC) (oc : OutC) : List Nat :=
+  match e with
+  | .base _ => (reported oc.out).toList
+  | _ => oc.heard.filterMap rep
+
+def isJoinC : EvC → Bool
+  | .base e => isJoin e
+  | .joinC _ _ _ _ _ _ => true
+  | .uplinkC _ _ _ _ _ _ _ _ _ => false
+
+/-- `ns` are the counters reported while the tracker moved from `lo` to `hi` -/
+structure Climb (lo : Option Nat) (ns : List Nat) (hi : Option Nat) : Prop where
+  mono : ∀ L, lo = some L → ∃ H, hi = some H ∧ L ≤ H
+  bound : ∀ N ∈ ns, (∀ L, lo = some L → L < N) ∧ ∃ H, hi = some H ∧ N ≤ H
+  sorted : ns.Pairwise (· < ·)
+
+theorem Climb.refl (lo : Option Nat) : Climb lo [] lo :=
+  ⟨fun L h => ⟨L, h, Nat.le_refl _⟩, fun N h => (by cases h), List.Pairwise.nil⟩
+
+theorem Climb.trans {a b c : Option Nat} {n1 n2 : List Nat} (h1 : Climb a n1 b) (h2 : Climb b n2 c) : Climb a (n1 ++ n2) c := by
+  refine ⟨?_, ?_, ?_⟩
+  · intro L hL
+    obtain ⟨M, hM, h⟩ := h1.mono L hL
+    obtain ⟨H, hH, h'⟩ := h2.mono M hM
+    exact ⟨H, hH, Nat.le_trans h h'⟩
+  · intro N hN
+    rcases List.mem_append.mp hN with hN | hN
+    · obtain ⟨hlo, M, hM, h⟩ := h1.bound N hN
+      obtain ⟨H, hH, h'⟩ := h2.mono M hM
+      exact ⟨hlo, H, hH, Nat.le_trans h h'⟩
+    · obtain ⟨hlo, H, hH, h⟩ := h2.bound N hN
+      refine ⟨?_, H, hH, h⟩
+      intro L hL
+      obtain ⟨M, hM, h'⟩ := h1.mono L hL
+      exact Nat.lt_of_le_of_lt h' (hlo M hM)
+  · rw [List.pairwise_append]
+    refine ⟨h1.sorted, h2.sorted, ?_⟩
+    intro x hx y hy
+    obtain ⟨_, M, hM, h⟩ := h1.bound x hx
+    exact Nat.lt_of_le_of_lt h ((h2.bound y hy).1 M hM)
+
+/-- a frame accepted under `N` when the tracker held `lo`; reported or not (exhausted uplink counter) -/
+theorem Climb.acc {lo : Option Nat} {N : Nat} (h : ∀ L, lo = some L → L < N) (ns : List Nat) (hns : ns = [N] ∨ ns = []) :
+    Climb lo ns (some N) := by
+  refine ⟨fun L hL => ⟨N, rfl, Nat.le_of_lt (h L hL)⟩, ?_, ?_⟩
+  · intro M hM
+    rcases hns with rfl | rfl
+    · simp only [List.mem_singleton] at hM; subst hM; exact ⟨h, M, rfl, Nat.le_refl _⟩
+    · cases hM
+  · rcases hns with rfl | rfl
+    · exact List.pairwise_singleton _ _
+    · exact List.Pairwise.nil
+
+theorem accepts_below {last : Option Nat} {d : RxData} {mp N : Nat} (h : accepts last d mp = some N) :
+    ∀ L, last = some L → L < N := by
+  intro L hL; subst hL; exact accepts_gt h
+
+theorem reps_accOut (fu N : Nat) (d : RxData) : [accOut fu N d].filterMap rep = [N] ∨ [accOut fu N d].filterMap rep = [] := by
+  unfold accOut
+  by_cases hx : fu = 0xFFFFFFFF
+  · right; simp [hx, rep]
+  · left; simp [hx, rep]
+
+theorem reps_tmo (fu : Nat) (conf : Bool) : [({ resp := tmoResp fu conf, downlink := none } : RxOut)].filterMap rep = [] := by
+  unfold tmoResp
+  by_cases hx : fu = 0xFFFFFFFF
+  · simp [hx, rep]
+  · cases conf <;> simp [hx, rep]
+
+theorem refRxcs_climb (mpc : Nat) (cs : List (RxView × Int)) :
+    ∀ p : PSt, Climb p.last ((refRxcs p mpc cs).heard.filterMap rep) (refRxcs p mpc cs).st.last := by
+  induction cs with
+  | nil => intro p; exact Climb.refl _
+  | cons c rest ih =>
+    intro p
+    obtain ⟨v, snr⟩ := c
+    unfold refRxcs
+    cases hs : specRxc p.last v mpc with
+    | none =>
+      simp only []
+      have : (noUp :: (refRxcs p mpc rest).heard).filterMap rep = (refRxcs p mpc rest).heard.filterMap rep := by
+        simp [List.filterMap_cons, rep, noUp]
+      rw [this]
+      exact ih p
+    | some q =>
+      obtain ⟨N, d⟩ := q
+      simp only []
+      have ha : accepts p.last d mpc = some N := by
+        unfold specRxc at hs
+        cases v with
+        | garbage => cases hs
+        | joinAccept j => cases hs
+        | data d' =>
+          simp only [Option.map_eq_some_iff, Prod.mk.injEq] at hs
+          obtain ⟨_, ha, rfl, rfl⟩ := hs
+          exact ha
+      have e : (accOut p.fu N d :: (refRxcs ⟨some N, bumpFu p.fu⟩ mpc rest).heard).filterMap rep =
+          [accOut p.fu N d].filterMap rep ++ (refRxcs ⟨some N, bumpFu p.fu⟩ mpc rest).heard.filterMap rep := by
+        rw [← List.filterMap_append]; rfl
+      rw [e]
+      exact (Climb.acc (accepts_below ha) _ (reps_accOut p.fu N d)).trans (ih ⟨some N, bumpFu p.fu⟩)
+
+theorem refWin_climb (cc : Bool) (p : PSt) (conf : Bool) (mpc : Nat) (cs : List (RxView × Int)) (f : Option (RxView × Int))
+    (mp : Nat) (eb ea : Bool) (hf : rxOk f = true) :
+    Climb p.last ((refWin cc p conf mpc cs f mp eb ea).heard.filterMap rep) (refWin cc p conf mpc cs f mp eb ea).st.last := by
+  unfold refWin
+  have hb : Climb p.last ((if cc then refRxcs p mpc cs else ⟨[], [], p⟩ : Ref).heard.filterMap rep)
+      (if cc then refRxcs p mpc cs else ⟨[], [], p⟩ : Ref).st.last := by
+    cases cc
+    · exact Climb.refl _
+    · exact refRxcs_climb mpc cs p
+  generalize (if cc then refRxcs p mpc cs else ⟨[], [], p⟩ : Ref) = b at hb
+  simp only []
+  cases eb with
+  | true => exact hb
+  | false =>
+    simp only [Bool.false_eq_true, if_false]
+    cases hsw : specWindow b.st.last f mp with
+    | nothing => exact hb
+    | ended =>
+      simp only [List.filterMap_append, reps_tmo, List.append_nil]
+      exact hb
+    | accepted N d snr =>
+      simp only [List.filterMap_append]
+      obtain ⟨_, ha, _⟩ := specWindow_accepted hf hsw
+      exact hb.trans (Climb.acc (accepts_below ha) _ (reps_accOut b.st.fu N d))
+
+theorem refCycle_climb (cc : Bool) (p : PSt) (conf : Bool) (mpc : Nat) (fault : Option FaultPos) (c1 : List (RxView × Int))
+    (rx1 : Option (RxView × Int)) (c2 : List (RxView × Int)) (rx2 : Option (RxView × Int)) (mp1 mp2 : Nat)
+    (hf1 : rxOk rx1 = true) (hf2 : rxOk rx2 = true) :
+    Climb p.last ((refCycle cc p conf mpc fault c1 rx1 c2 rx2 mp1 mp2).heard.filterMap rep)
+      (refCycle cc p conf mpc fault c1 rx1 c2 rx2 mp1 mp2).st.last := by
+  unfold refCycle
+  by_cases htx : fault = some .tx
+  · simp only [htx, if_true]; exact Climb.refl _
+  · simp only [htx, if_false]
+    have h1 := refWin_climb cc p conf mpc c1 rx1 mp1 (fault == some .before1) (fault == some .close1) hf1
+    generalize refWin cc p conf mpc c1 rx1 mp1 (fault == some .before1) (fault == some .close1) = w1 at h1
+    cases hres1 : w1.res with
+    | none => exact h1
+    | some o1 =>
+      cases o1 with
+      | some o => exact h1
+      | none =>
+        simp only []
+        have h2 := refWin_climb cc w1.st conf mpc c2 rx2 mp2 (fault == some .before2) (fault == some .close2) hf2
+        generalize refWin cc w1.st conf mpc c2 rx2 mp2 (fault == some .before2) (fault == some .close2) = w2 at h2
+        cases hres2 : w2.res with
+        | none => simp only [List.filterMap_append]; exact h1.trans h2
+        | some o2 => cases o2 <;> (simp only [List.filterMap_append]; exact h1.trans h2)
+
+theorem refUplink_climb (cc : Bool) (p : PSt) (conf : Bool) (mpc : Nat) (fault : Option FaultPos) (c1 : List (RxView × Int))
+    (rx1 : Option (RxView × Int)) (c2 : List (RxView × Int)) (rx2 : Option (RxView × Int)) (mp1 mp2 : Nat)
+    (hf1 : rxOk rx1 = true) (hf2 : rxOk rx2 = true) :
+    Climb p.last ((refUplink cc p conf mpc fault c1 rx1 c2 rx2 mp1 mp2).heard.filterMap rep)
+      (refUplink cc p conf mpc fault c1 rx1 c2 rx2 mp1 mp2).st.last := by
+  have h := refCycle_climb cc p conf mpc fault c1 rx1 c2 rx2 mp1 mp2 hf1 hf2
+  unfold refUplink
+  generalize refCycle cc p conf mpc fault c1 rx1 c2 rx2 mp1 mp2 = c at h
+  simp only []
+  cases hf : c.fin <;> exact h
+
+/-- within a session an event of `Model/History.lean` that is no (re-)join keeps the tracker in it,
+never moving it backwards -/
+theorem ghStep_climb (last : Option Nat) (ev : Ev) (hv : evOk ev = true) (hj : isJoin ev = false) :
+    ∃ last', ghStep (some last) ev = some last' ∧ Climb last [] last' := by
+  cases ev with
+  | joinAbp da nwk app => cases hj
+  | joinOtaa fault rx1 rx2 mp1 mp2 => cases hj
+  | setAdr on => exact ⟨last, rfl, Climb.refl _⟩
+  | setDr dr => exact ⟨last, rfl, Climb.refl _⟩
+  | rxc v snr mp =>
+    simp only [ghStep, Option.map_some]
+    cases hs : specRxc last v mp with
+    | none => exact ⟨last, rfl, Climb.refl _⟩
+    | some p =>
+      obtain ⟨N, d⟩ := p
+      refine ⟨some N, rfl, Climb.acc ?_ [] (Or.inr rfl)⟩
+      unfold specRxc at hs
+      cases v with
+      | garbage => cases hs
+      | joinAccept j => cases hs
+      | data d' =>
+        simp only [Option.map_eq_some_iff, Prod.mk.injEq] at hs
+        obtain ⟨_, ha, rfl, rfl⟩ := hs
+        exact accepts_below ha
+  | uplink data fport conf fault rx1 rx2 mp1 mp2 =>
+    simp only [evOk, Bool.and_eq_true] at hv
+    simp only [ghStep, Option.map_some]
+    cases hu : upRes last fault rx1 rx2 mp1 mp2 with
+    | nothing => exact ⟨last, rfl, Climb.refl _⟩
+    | ended => exact ⟨last, rfl, Climb.refl _⟩
+    | accepted N d snr =>
+      obtain ⟨mp, ha, _⟩ := upRes_accepted hv.1 hv.2 hu
+      exact ⟨some N, rfl, Climb.acc (accepts_below ha) [] (Or.inr rfl)⟩
+
+theorem ghStep_none (ev : Ev) (hj : isJoin ev = false) : ghStep none ev = none := by
+  cases ev <;> first | rfl | cases hj
+
+theorem outOk_none_reported {ev : Ev} {out : Out} (hj : isJoin ev = false) (h : OutOk none ev out) : reported out = none := by
+  cases ev with
+  | joinAbp da nwk app => cases hj
+  | joinOtaa fault rx1 rx2 mp1 mp2 => cases hj
+  | setAdr on => simp only [OutOk] at h; subst h; rfl
+  | setDr dr => simp only [OutOk] at h; subst h; rfl
+  | rxc v snr mp => simp only [OutOk] at h; obtain ⟨rf, rfl⟩ := h; rfl
+  | uplink data fport conf fault rx1 rx2 mp1 mp2 =>
+    cases fault <;> (simp only [OutOk] at h; subst h; rfl)
+
+/-- **one event**: what it reports climbs from the tracker before it to the tracker after it -/
+theorem outOkC_climb {gh : Gh} {e : EvL} {out : OutC} (hv : evOkC e.2 = true) (hj : isJoinC e.2 = false) (h : OutOkC gh e out) :
+    match gh with
+    | some last => ∃ last', ghNextC gh e out = some last' ∧ Climb last (reportedC e.2 out) last'
+    | none => ghNextC gh e out = none ∧ reportedC e.2 out = [] := by
+  obtain ⟨mpc, ev⟩ := e
+  cases ev with
+  | base ev =>
+    simp only [OutOkC] at h
+    obtain ⟨hok, _⟩ := h
+    simp only [isJoinC] at hj
+    simp only [evOkC] at hv
+    cases gh with
+    | none =>
+      simp only [ghNextC, reportedC]
+      exact ⟨ghStep_none ev hj, by rw [outOk_none_reported hj hok]; rfl⟩
+    | some last =>
+      simp only [ghNextC, reportedC]
+      cases hrep : reported out.out with
+      | none =>
+        obtain ⟨last', h1, h2⟩ := ghStep_climb last ev hv hj
+        exact ⟨last', h1, h2⟩
+      | some N =>
+        obtain ⟨last0, d, mp, hg, ha, hs⟩ := outOk_reported hv hok hrep
+        cases hg
+        exact ⟨some N, hs, Climb.acc (accepts_below ha) _ (Or.inl rfl)⟩
+  | joinC cc fault c1 rx1 c2 rx2 => cases hj
+  | uplinkC cc data fport conf fault c1 rx1 c2 rx2 =>
+    simp only [evOkC, Bool.and_eq_true] at hv
+    cases gh with
+    | none =>
+      simp only [OutOkC] at h
+      subst h
+      exact ⟨rfl, rfl⟩
+    | some last =>
+      simp only [OutOkC] at h
+      obtain ⟨so, _, rfl⟩ := h
+      simp only [ghNextC, reportedC]
+      exact ⟨_, rfl, refUplink_climb cc ⟨last, so.frame.fcnt⟩ conf mpc fault c1 rx1 c2 rx2 _ _ hv.1.1.2 hv.2⟩
+
+/-- a stretch of a session: everything reported along it climbs from the tracker before to the tracker after -/
+theorem trace_climb (t : List (EvL × OutC)) (hv : ∀ x ∈ t, evOkC x.1.2 = true) (hj : ∀ x ∈ t, isJoinC x.1.2 = false) :
+    ∀ gh : Gh, AcceptTraceC gh t →
+      match gh with
+      | some last => ∃ last', ghAfterC gh t = some last' ∧ Climb last (t.flatMap (fun x => reportedC x.1.2 x.2)) last'
+      | none => ghAfterC gh t = none ∧ t.flatMap (fun x => reportedC x.1.2 x.2) = [] := by
+  induction t with
+  | nil =>
+    intro gh _
+    cases gh with
+    | none => exact ⟨rfl, rfl⟩
+    | some last => exact ⟨last, rfl, Climb.refl _⟩
+  | cons x rest ih =>
+    intro gh ht
+    obtain ⟨e, out⟩ := x
+    obtain ⟨hp, hrest⟩ := ht
+    have h1 := outOkC_climb (hv (e, out) List.mem_cons_self) (hj (e, out) List.mem_cons_self) hp
+    have ih' := ih (fun x hx => hv x (List.mem_cons_of_mem _ hx)) (fun x hx => hj x (List.mem_cons_of_mem _ hx)) (ghNextC gh e out) hrest
+    simp only [List.flatMap_cons, ghAfterC, ghostAfterG]
+    cases gh with
+    | none =>
+      simp only at h1
+      rw [h1.1] at ih' ⊢
+      simp only at ih'
+      exact ⟨ih'.1, by rw [h1.2, ih'.2]; rfl⟩
+    | some last =>
+      simp only at h1
+      obtain ⟨last1, hn, hc1⟩ := h1
+      rw [hn] at ih' ⊢
+      simp only at ih'
+      obtain ⟨last', ha, hc2⟩ := ih'
+      exact ⟨last', ha, hc1.trans hc2⟩
+
+theorem traceDG_drop {G E O} (next : G → E → O → G) (P : G → E → O → Prop) (gh : G) (t : List (E × O)) (i : Nat)
+    (h : TraceDG next P gh t) : TraceDG next P (ghostAfterG next gh (t.take i)) (t.drop i) := by
+  induction t generalizing gh i with
+  | nil => simp [TraceDG]
+  | cons x rest ih =>
+    obtain ⟨e0, o0⟩ := x
+    cases i with
+    | zero => simpa [ghostAfterG] using h
+    | succ i =>
+      simp only [List.take_succ_cons, ghostAfterG, List.drop_succ_cons]
+      exact ih (next gh e0 o0) i h.2
+
+theorem traceDG_take {G E O} (next : G → E → O → G) (P : G → E → O → Prop) (gh : G) (t : List (E × O)) (n : Nat)
+    (h : TraceDG next P gh t) : TraceDG next P gh (t.take n) := by
+  induction t generalizing gh n with
+  | nil => simp [TraceDG]
+  | cons x rest ih =>
+    obtain ⟨e0, o0⟩ := x
+    cases n with
+    | zero => simp [TraceDG]
+    | succ n =>
+      simp only [List.take_succ_cons, TraceDG]
+      exact ⟨h.1, ih _ n h.2⟩
+
+/-- **the accepted downlink counters of one session are strictly increasing — inside a receive
+procedure and across events.**  Take any stretch (`n` events from position `i`) of any extended
+history that contains no (re-)join: the counters it reports as accepted (`DownlinkReceived N`: frames
+heard on the RXC parameters inside a procedure, in RX1/RX2, between uplinks), listed in the order the
+frames were handled, are strictly increasing.  Hence no frame is accepted twice in a session: a
+replayed frame would verify under the same counter. -/
+theorem historyC_fcnt_down_strict {σ} (g : Rng σ) (m : MacState) (rs : σ) (gh : Gh) (hr : GhRel m gh) (evs : List EvC)
+    (hv : ∀ ev ∈ evs, evOkC ev = true) (ms' : MacState × σ) (outs : List OutC)
+    (h : runC g (m, rs) evs = .ok (ms', outs)) (i n : Nat)
+    (hq : ∀ x ∈ (((annotC g (m, rs) evs).zip outs).drop i).take n, isJoinC x.1.2 = false) :
+    (((((annotC g (m, rs) evs).zip outs).drop i).take n).flatMap (fun x => reportedC x.1.2 x.2)).Pairwise (· < ·) := by
+  have ht := (historyC_accept_iff g m rs gh hr evs hv ms' outs h).1
+  have hvz : ∀ x ∈ (annotC g (m, rs) evs).zip outs, evOkC x.1.2 = true := by
+    intro x hx
+    have h1 := (List.of_mem_zip hx).1
+    unfold annotC at h1
+    exact hv _ (List.of_mem_zip h1).2
+  generalize (annotC g (m, rs) evs).zip outs = t at *
+  have hseg := traceDG_take ghNextC OutOkC _ _ n (traceDG_drop ghNextC OutOkC gh t i ht)
+  have hvs : ∀ x ∈ (t.drop i).take n, evOkC x.1.2 = true :=
+    fun x hx => hvz x (List.mem_of_mem_drop (List.mem_of_mem_take hx))
+  have := trace_climb _ hvs hq _ hseg
+  cases hgi : ghostAfterG ghNextC gh (t.take i) with
+  | none =>
+    rw [hgi] at this
+    simp only at this
+    rw [this.2]
+    exact List.Pairwise.nil
+  | some last =>
+    rw [hgi] at this
+    simp only at this
+    obtain ⟨_, _, hc⟩ := this
+    exact hc.sorted
+
+/-- … in particular no counter — hence no frame — is accepted twice in a session -/
+theorem historyC_no_replay {σ} (g : Rng σ) (m : MacState) (rs : σ) (gh : Gh) (hr : GhRel m gh) (evs : List EvC)
+    (hv : ∀ ev ∈ evs, evOkC ev = true) (ms' : MacState × σ) (outs : List OutC)
+    (h : runC g (m, rs) evs = .ok (ms', outs)) (i n : Nat)
+    (hq : ∀ x ∈ (((annotC g (m, rs) evs).zip outs).drop i).take n, isJoinC x.1.2 = false) :
+    (((((annotC g (m, rs) evs).zip outs).drop i).take n).flatMap (fun x => reportedC x.1.2 x.2)).Nodup := by
+  have := historyC_fcnt_down_strict g m rs gh hr evs hv ms' outs h i n hq
+  exact this.imp (fun hlt => Nat.ne_of_lt hlt)
+
+
+/-- **C05 on the async front-end, for EVERY script, both classes.**  A session of the async front-end
+model that returns is a run of the extended history `abstractSessionC` of its calls (`asyncOps_runC`):
+the acceptance trace predicate holds of it from the tracker of the start state — every frame handled,
+inside the receive procedure or in a window, acted upon iff authentic, fresh and fitting —, the outputs
+are the front-end's answers call by call, the counters it reports as accepted strictly increase within
+every stretch without (re-)join, and the final MAC state is the one the tracker describes. -/
+theorem asyncC_accept_iff {σ} (g : Rng σ) (cfg : DevCfg) (d : DevRun) (rs : σ) (gh : Gh) (hr : GhRel d.m gh)
+    (ops : List AsyncOp) (hv : ∀ op ∈ ops, op.allView viewOk = true)
+    (obs : List OpObs) (d' : DevRun) (rs' : σ) (h : asyncOps g cfg d rs ops = .ok (obs, d', rs')) :
+    ∃ outs, AcceptTraceC gh ((annotC g (d.m, rs) (abstractSessionC cfg ops)).zip outs) ∧
+      GhRel d'.m (ghAfterC gh ((annotC g (d.m, rs) (abstractSessionC cfg ops)).zip outs)) ∧
+      AllRel ObsRel obs outs ∧
+      ∀ i n, (∀ x ∈ (((annotC g (d.m, rs) (abstractSessionC cfg ops)).zip outs).drop i).take n, isJoinC x.1.2 = false) →
+        (((((annotC g (d.m, rs) (abstractSessionC cfg ops)).zip outs).drop i).take n).flatMap
+          (fun x => reportedC x.1.2 x.2)).Pairwise (· < ·) := by
+  obtain ⟨outs, hrun, hobs⟩ := asyncOps_runC g cfg d rs ops obs d' rs' h
+  have hev := abstractOps_evOkC cfg ops hv
+  obtain ⟨ht, hg⟩ := historyC_accept_iff g d.m rs gh hr _ hev _ outs hrun
+  exact ⟨outs, ht, hg, hobs, fun i n hq => historyC_fcnt_down_strict g d.m rs gh hr _ hev _ outs hrun i n hq⟩
+
+/-! non-vacuity of the extended theorems: a Class C session — a frame accepted on the RXC parameters
+between TX and RX1, its replay right after it (rejected), the next counter in RX1; then a frame
+accepted between RX1 and RX2 and its replay in RX2 (rejected: the procedure times out) -/
+def demoHistoryC : List EvC :=
+  [ .base (.joinAbp 7 1 2),
+    .uplinkC true [1] 1 false none [(frame 5 (some 5) 14, 0), (frame 5 (some 5) 14, 0)] (some (frame 6 (some 6) 14, 0)) [] none,
+    .uplinkC true [2] 1 true none [] none [(frame 7 (some 7) 14, 0)] (some (frame 7 (some 7) 14, 0)),
+    .base (.rxc (frame 7 (some 7) 14) 0 51) ]
+
+example : ∀ ev ∈ demoHistoryC, evOkC ev = true := by decide
+example : ∀ ev ∈ demoHistoryC.drop 1, isJoinC ev = false := by decide
+example : (runC lcg (MacState.init (RegionState.init .EU868) 14 0, 1) demoHistoryC).toOption.map
+      (fun r => (r.2.map (fun o => o.heard.filterMap rep), r.2.map (fun o => reported o.out))) =
+    some ([[], [5, 6], [7], []], [none, some 6, none, none]) := by decide +kernel
+example : (runC lcg (MacState.init (RegionState.init .EU868) 14 0, 1) demoHistoryC).toOption.map
+      (fun r => ghAfterC none ((annotC lcg (MacState.init (RegionState.init .EU868) 14 0, 1) demoHistoryC).zip r.2)) =
+    some (some (some 7)) := by decide +kernel
+
+/-- the hypotheses of `asyncC_accept_iff` are satisfiable: a Class C session with a frame heard between TX and RX1 -/
+def demoAsyncOpsC : List AsyncOp :=
+  [ .abp 7 1 2,
+    .send [1] 1 false [.ok, .ok, .frame 3 (.data { len := 14, confirmed := false, fcnt16 := 5, micFcnt := some 5, fopts := [], fport := some 2, payload := [9] }), .ok] ]
+
+example : ∀ op ∈ demoAsyncOpsC, op.allView viewOk = true := by decide
+example : (abstractSessionC { lead := 15, buffer := 40, classC := true, txMs := 57 } demoAsyncOpsC).map EvC.plain = [true, false] := by
+  decide +kernel
 
 end C05
 
@@ -607,3 +1090,8 @@ end C05
 #print axioms C05.history_accept_iff_init
 #print axioms C05.history_fcnt_down_strict
 #print axioms C05.history_no_replay
+#print axioms C05.stepC_outOkC
+#print axioms C05.historyC_accept_iff
+#print axioms C05.historyC_fcnt_down_strict
+#print axioms C05.historyC_no_replay
+#print axioms C05.asyncC_accept_iff
